@@ -766,12 +766,14 @@ package grpctunnel
 //@     assert[C08]     @sameid  arg2 == in.StreamId
 //@   at call getStream#1
 //@     assert[C01,C03] @demux arg1 == in.StreamId
+//@     assert[C08]     @notopening !(in.Frame is *tunnelpb.ClientToServer_NewStream)
 //@   at call acceptClientFrame#1
 //@     assert[C01,C03] @dispatch arg1 == in.Frame && getErr == nil
+//@     assert[C08]     @openingelsewhere !(in.Frame is *tunnelpb.ClientToServer_NewStream)
 //@   at go#1
 //@     assert[C11,C13] @settingsiff s.clientAcceptsSettings && count("go") == 0
 //@   at go#2
-//@     assert[C03,C10,C13] @rejection createOK && createErr != nil
+//@     assert[C03,C08,C10,C13] @rejection createOK && createErr != nil
 //@   at return#1
 //@     assert[C03,C09] @eof recvErr == io.EOF
 //@   at return#2
